@@ -146,3 +146,13 @@ Definition law_snapshot (c : cache) (s : snapshot) : bool :=
   gmap_allb (fun i t => match c_heap c !! i with
                         | Some t' => task_view_sameb t t'
                         | None => false end) (s_heap s).
+
+(* A snapshot read as a cache of its own needs, as "heap", the tasks of its jobs AND the copies
+   its nodes hold of tasks whose job is not part of the snapshot (the real Snapshot() has no
+   heap object at all; the codec rebuilds exactly this one from a dump, Entry.v dSnap).
+   [s_heap] alone (tasks of the snapshot's jobs) is not enough for [law_snapshot]. *)
+Definition snap_heap (s : snapshot) : gmap positive task :=
+  s_heap s ∪ map_fold (fun _ N acc => n_tasks N ∪ acc) ∅ (s_nodes s).
+Definition full_snapshot (eps : Z) (c : cache) : snapshot :=
+  let s := take_snapshot eps c in
+  mkSnap (snap_heap s) (s_jobs s) (s_nodes s) (s_nodelist s) (s_queues s).
